@@ -16,7 +16,7 @@ def main():
     c.prove(gen=["adapter"])
     c.correspond("adapter", timeout=3000)
     return c.finish(
-        rule="complete runs for (n,t) in {(2,1),(3,1),(3,2)} EdDSA (quick) plus (4,2) EdDSA and (2,1),(3,1) ECDSA (thorough): every captured message is classified by a fresh receiver and compared with the library's "
+        rule="Also: the captured message types classified concurrently (8 goroutines) on one instance; hashToInt against a reference written from the standard; the same adapter objects re-initialised with another party list ({1,2,3} then {2,3}); thorough: ECDSA signing of 20/28/32/48-byte digests verified with crypto/ecdsa. complete runs for (n,t) in {(2,1),(3,1),(3,2)} EdDSA (quick) plus (4,2) EdDSA and (2,1),(3,1) ECDSA (thorough): every captured message is classified by a fresh receiver and compared with the library's "
              "IsBroadcast flag (direct monitor) and, once per type URL, with the model's table look-up; 300 garbage byte strings into ClassifyMsg/OnMsg under a panic guard; hashToInt on digests of every length 0..64 "
              "(random, all-ones) against the model. Non-trivial = distinct type URLs and digests.",
         trusted=TRUSTED, assumptions=ASSUME)
